@@ -628,6 +628,22 @@ func c08GenCell(r *Rng, kind, at string, nullOK bool) ([]string, bool) {
 			limit := c08Big("100000000000000000000")
 			return one("i:"+n.String(), new(big.Int).Abs(n).Cmp(limit) < 0)
 		}
+		if (at == "enum" || at == "dict_string") && r.Chance(75) {
+			// a peer's dictionary column: several distinct entries in arbitrary order, the row
+			// selects any of them (often the last), unused entries before and after
+			pool := []string{"red", "green", "blue", "", "é", "RED", "a,b", "x", "zz", "north", "south"}
+			n := r.Range(2, 5)
+			start := r.Intn(len(pool))
+			hs := make([]string, n)
+			for i := range hs {
+				hs[i] = fmt.Sprintf("%x", pool[(start+i*3)%len(pool)])
+			}
+			idx := r.Intn(n)
+			if r.Chance(40) {
+				idx = n - 1
+			}
+			return one(fmt.Sprintf("e:%d:%s", idx, strings.Join(hs, ",")), true)
+		}
 		return one(fmt.Sprintf("s:%x", c08GenStr(r)), true)
 	case "bytes":
 		return one(fmt.Sprintf("y:%x", r.Bytes(Pick(r, []int{0, 1, 5, 16}))), true)
@@ -752,6 +768,83 @@ func c08Gen(g *Gen) {
 			lines = append(lines, c08Line("rt", st, tg.value(st, "").tokens()))
 		}
 		g.Case(lines...)
+	}
+	// (e) histories: k values of mixed types and sizes (a large one early), serialized back to back
+	for i, n := 0, g.N(500, 20000); i < n; i++ {
+		k := r.Range(2, 8)
+		lines := make([]string, 0, k)
+		big := r.Intn(k)
+		var st *c08Ty
+		var sv *c08Val
+		for j := 0; j < k; j++ {
+			switch {
+			case j > 0 && r.Chance(30): // the same type again, another value
+				sv = tg.value(st, "")
+			case r.Chance(50):
+				sp := specs[r.Intn(len(specs))]
+				f, v := c08Wrap(r, sp, c08PosFor(r, sp))
+				st, sv = c08St(f), &c08Val{K: 'r', Elems: []*c08Val{v}}
+			default:
+				st, sv = tg.structTy(r.Range(0, 2), r.Range(1, 4))
+			}
+			if j == big || r.Chance(15) { // pad with a long string so that later, smaller streams fit inside this one
+				st = c08St(append(append([]c08Field{}, st.Fields...), c08Field{Tag: "pad", T: c08Leaf("str")})...)
+				sv = &c08Val{K: 'r', Elems: append(append([]*c08Val{}, sv.Elems...), &c08Val{K: 's', S: []byte(strings.Repeat("p", r.Range(200, 3000)))})}
+			}
+			lines = append(lines, c08Line("rth", st, sv.tokens()))
+		}
+		g.Case(lines...)
+	}
+	// (f) collections that do not start at offset 0 of their Arrow child array: lists of maps and maps of
+	// maps with pointer values and differing nil patterns, lists of lists with nil elements
+	for i, n := 0, g.N(700, 20000); i < n; i++ {
+		kind := Pick(r, []string{"i64", "i8", "u16", "str", "f64", "bool", "bytes"})
+		leaf := c08Leaf(kind)
+		mkMap := func() *c08Val {
+			m := &c08Val{K: 'm'}
+			keys := []string{"a", "b", "c", "d"}
+			for j, nk := 0, r.Range(0, 4); j < nk; j++ {
+				m.Keys = append(m.Keys, &c08Val{K: 's', S: []byte(keys[j])})
+				if r.Chance(45) {
+					m.Elems = append(m.Elems, &c08Val{K: 'n'})
+				} else {
+					m.Elems = append(m.Elems, c08GenLeaf(r, kind, ""))
+				}
+			}
+			return m
+		}
+		var f c08Field
+		var v *c08Val
+		switch r.Intn(3) {
+		case 0: // []map[string]*T
+			f = c08Field{Tag: "lm", T: c08Sl(c08Map(c08Leaf("str"), c08Ptr(leaf)))}
+			v = &c08Val{K: 'l'}
+			for j, nm := 0, r.Range(2, 4); j < nm; j++ {
+				v.Elems = append(v.Elems, mkMap())
+			}
+		case 1: // map[int32]map[string]*T
+			f = c08Field{Tag: "mm", T: c08Map(c08Leaf("i32"), c08Map(c08Leaf("str"), c08Ptr(leaf)))}
+			v = &c08Val{K: 'm'}
+			for j, nm := 0, r.Range(2, 4); j < nm; j++ {
+				v.Keys = append(v.Keys, &c08Val{K: 'i', I: big.NewInt(int64(j*7 - 3))})
+				v.Elems = append(v.Elems, mkMap())
+			}
+		default: // [][]*T
+			f = c08Field{Tag: "ll", T: c08Sl(c08Sl(c08Ptr(leaf)))}
+			v = &c08Val{K: 'l'}
+			for j, nl := 0, r.Range(2, 4); j < nl; j++ {
+				in := &c08Val{K: 'l'}
+				for q, ne := 0, r.Range(0, 3); q < ne; q++ {
+					if r.Chance(45) {
+						in.Elems = append(in.Elems, &c08Val{K: 'n'})
+					} else {
+						in.Elems = append(in.Elems, c08GenLeaf(r, kind, ""))
+					}
+				}
+				v.Elems = append(v.Elems, in)
+			}
+		}
+		g.Case(c08Line("rt", c08St(f), (&c08Val{K: 'r', Elems: []*c08Val{v}}).tokens()))
 	}
 	// (d) malformed / rejected: unsupported pairs, tag soup, over-deep nesting, odd shapes
 	for i, n := 0, g.N(1200, 30000); i < n; i++ {
